@@ -709,7 +709,7 @@ def oracle(case, pr):
                 total = sum(sg[col - 1] * sg[2] for sg in segs)
                 lo_p, hi_p = min(sg[col - 1] for sg in segs), max(sg[col - 1] for sg in segs)
                 mean = Fraction(total, b - a)
-                if not (mean - 1 < val <= mean):
+                if not (mean - 1 < val < mean + 1):       # 18 decimals, either rounding direction
                     viol("query %d: arithmetic TWAP over [%d, %d] is %d, time-weighted mean of the end-of-block prices is %s"
                          % (idx, start, end, val, float(mean)), {"fn": "twap.arithmetic.computeTwap", "kind": "mean"})
                 elif not (lo_p <= val <= hi_p):
